@@ -111,6 +111,9 @@ func (valSet *ValidatorSet) GetByAddress(address []byte) (index int, val *Valida
 }
 
 func (valSet *ValidatorSet) GetByIndex(index int) (address []byte, val *Validator) {
+	if index < 0 || index >= len(valSet.Validators) {
+		return nil, nil
+	}
 	val = valSet.Validators[index]
 	return val.Address, val.Copy()
 }
